@@ -456,3 +456,40 @@ def extent_units(facts):
     if n_sites < 8:
         out.append(ob("bloom.extent", "anchor", "", "unrecognised", "only %d bit-array extents found" % n_sites, ""))
     return out
+
+
+def recount_before_writes(facts):
+    """a function that sets bits one by one and keeps the cached count by adding what it set must take the recount of a stale
+    cache (get_bits_used()) BEFORE the first bit is written: a recount taken afterwards already contains the new bits, and adding
+    them again reports more set bits than the array holds."""
+    from triggers import _loc_key
+    fns, bf = bloom_fns(facts)
+    out = []
+    WRITERS = ("get_and_set_bit", "set_bit", "assign_bit")
+    for pat, fn in sorted(bf.items()):
+        if fn.get("body") is None:
+            continue
+        writes, recounts, adjusts = [], [], []
+
+        def v(n):
+            if n.get("k") == "Call" and n.get("cname") in WRITERS:
+                writes.append(n)
+            if n.get("k") == "Call" and n.get("cname") == "get_bits_used" and (n.get("obj") is None or strip(n["obj"]).get("k") == "This"):
+                recounts.append(n)
+            if n.get("k") == "Call" and n.get("cname") == "update_num_bits_set":
+                adjusts.append(n)
+            if n.get("k") in ("Assign", "Un") and is_this_field(n.get("l") or n.get("e") or {}, ("num_bits_set_",)) and (n.get("op") in ("+=", "++")):
+                adjusts.append(n)
+        walk(fn["body"], v)
+        if not (writes and adjusts):
+            continue
+        key = "bloom_filter_alloc::%s:recount-precedes-bit-writes" % fn["name"]
+        first_w = min(_loc_key(w) for w in writes)
+        late = [r for r in recounts if _loc_key(r) > first_w]
+        if late:
+            out.append(ob("bloom.recount", key, late[0].get("loc", fn["pat"]), "violated", "get_bits_used() (the recount of a stale cached count) is evaluated after bits have been written in this function, and the count is then adjusted by the number of new bits: on a stale cache the recount already contains them, so they are counted twice (bits used > bits set)", fn["qname"]))
+        elif recounts:
+            out.append(ob("bloom.recount", key, fn["pat"], "discharged", "the recount precedes the first bit write; the count is then adjusted incrementally", fn["qname"]))
+        else:
+            out.append(ob("bloom.recount", key, fn["pat"], "info", "no recount in this function (covered by the stale-count rule)", fn["qname"]))
+    return out
